@@ -36,10 +36,18 @@ for wt in sorted(glob.glob("/tmp/mut/c*")):
         runs = trials.get(name, [])
         meta["check_runs"] = [{"results": r["results"]} for r in runs]
         json.dump(meta, open(f"{dst}/meta.json", "w"), indent=1)
-        first = runs[0]["results"] if runs else {}
-        last = {}
-        for r in runs: last.update(r["results"])
-        rows.append((name, meta.get("what", "")[:160].replace("\n", " ").replace("|", "/"), first, last))
+        rows.append(name)
+stored_now = len(rows)
+# the table is rebuilt from everything stored (scratch worktrees are removed once a change is stored)
+rows = []
+for mp in sorted(glob.glob(f"{V}/*/meta.json")):
+    name = os.path.basename(os.path.dirname(mp))
+    meta = json.load(open(mp))
+    runs = meta.get("check_runs", [])
+    first = runs[0]["results"] if runs else {}
+    last = {}
+    for r in runs: last.update(r["results"])
+    rows.append((name, meta.get("what", "")[:160].replace("\n", " ").replace("|", "/"), first, last))
 with open(f"{V}/README.md", "w") as f:
     f.write("# Seeded changes\n\nEach directory holds a change written by an independent sub-agent that saw only the property text and a\n"
             "scratch worktree of texcraft (nothing from /verif), confirmed by me: it compiles, the existing tests of the touched\n"
@@ -50,4 +58,4 @@ with open(f"{V}/README.md", "w") as f:
         fr = ", ".join(f"{k}: {'CAUGHT' if v['rc']==1 else 'missed' if v['rc']==0 else 'tool error'} ({v['violations']})" for k, v in first.items())
         la = ", ".join(f"{k}: {'CAUGHT' if v['rc']==1 else 'missed' if v['rc']==0 else 'tool error'}" for k, v in last.items())
         f.write(f"| {name} | {what} | {fr} | {la} |\n")
-print(len(rows), "seeded changes stored")
+print(stored_now, "stored from scratch worktrees;", len(rows), "seeded changes in the table")
